@@ -6,7 +6,7 @@ recomputed independently in 60-digit decimal arithmetic (pv/refimpl.py).
 import math
 from decimal import Decimal
 
-from .. import bl, refimpl
+from .. import bl, gen, refimpl
 from ..core import Prop, Workload
 
 ONE = Decimal(1)
@@ -64,7 +64,8 @@ def lib_accepts(P, n, p, small):
         return None
 
 
-def check_bloom(ctx, P, n, p, rng):
+def check_bloom(ctx, P, n, p, rng, given=None):
+    """`given`: the same rate as another numeric type (Decimal, Fraction) - what is handed to the constructor instead of the float p"""
     sz = refimpl.bloom_sizing(n, p)
     if sz is None:
         if 0.0 < p < 1.0 and refimpl.f32(float(p)) == 0.0 and n >= 1:
@@ -81,7 +82,7 @@ def check_bloom(ctx, P, n, p, rng):
     ms, ks, p32 = sz
     approx_m = min(ms)
     small = approx_m <= 400_000
-    got = lib_accepts(P, n, p, small)
+    got = lib_accepts(P, n, p if given is None else given, small)
     if got == "skip":
         ctx.count("bloom.huge_skipped_no_classmethod")
         return
@@ -91,7 +92,7 @@ def check_bloom(ctx, P, n, p, rng):
     m, k, fpr, f = got
     ctx.count("bloom.configs_checked")
     ctx.count("bloom.configs_constructed" if small else "bloom.configs_sizing_only")
-    where = f"for est_elements={n}, rate={p!r}"
+    where = f"for est_elements={n}, rate={p!r}" + ("" if given is None else f" given as {given!r}")
     ctx.check(m in ms, f"number_bits is not ceil(-n ln p32 / ln^2 2) {where}", got=m, want=sorted(ms), p32=p32)
     ctx.check(k >= 1, f"accepted configuration has number_hashes < 1 {where}", got=k)
     ctx.check(k in ks[m], f"number_hashes is not round(ln2 m/n) {where}", got=k, want=sorted(ks[m]), bits=m)
@@ -137,11 +138,31 @@ def check_bloom(ctx, P, n, p, rng):
             d = P.BloomFilterOnDisk(path, n, p)
             geo = lambda o: (o.number_bits, o.number_hashes, o.false_positive_rate, o.estimated_elements, o.bloom_length, o.elements_added)
             ctx.check(geo(d) == (m, k, fpr, n, f.bloom_length, 0), f"on-disk construction (path state: {pre}) has another geometry than the in-memory one {where}", got=geo(d), want=(m, k, fpr, n, f.bloom_length, 0))
+            # the filter is USED before it is closed (keys added, cleared, exported): whatever happens to the cells, the geometry the file
+            # records - and every reopen derives - stays the one of the request
+            used = rng.choice(["untouched", "added", "added, cleared", "cleared", "added, cleared, added"])
+            n_in = 0
+            for part in used.split(", "):
+                if part == "added":
+                    for i in range(rng.randint(1, 5)):
+                        d.add(f"c07-key-{i}")
+                        n_in += 1
+                elif part == "cleared":
+                    d.clear()
+                    n_in = 0
+            ctx.check(geo(d) == (m, k, fpr, n, f.bloom_length, n_in), f"geometry of an on-disk filter changed while it was used ({used}) {where}", got=geo(d))
+            if used != "untouched":
+                cp = path + ".copy"
+                d.export(cp)
+                o = P.BloomFilter(filepath=cp)
+                ctx.check(geo(o) == (m, k, fpr, n, f.bloom_length, n_in), f"export copy of an on-disk filter ({used}) loads with another geometry {where}", got=geo(o))
+                os.unlink(cp)
+                ctx.count("bloom.ondisk_filters_used_before_reopen")
             d.close()
             ctx.check(os.path.getsize(path) == f.bloom_length + 20, f"backing file of a newly constructed on-disk filter (path state: {pre}) has the wrong length {where}",
                       got=os.path.getsize(path), want=f.bloom_length + 20)
             for how, o in (("on-disk reopen", P.BloomFilterOnDisk(path)), ("filepath load", P.BloomFilter(filepath=path))):
-                ctx.check(geo(o) == (m, k, fpr, n, f.bloom_length, 0), f"{how} of a newly constructed on-disk filter (path state: {pre}) has another geometry {where}", got=geo(o))
+                ctx.check(geo(o) == (m, k, fpr, n, f.bloom_length, n_in), f"{how} of an on-disk filter (path state: {pre}; {used}) has another geometry {where}", got=geo(o))
                 if hasattr(o, "close"):
                     o.close()
             os.unlink(path)
@@ -196,6 +217,12 @@ def wl_bloom_sweep(ctx, rng, case):
     case.desc = {"est_elements": n, "n_rates": len(ps), "kind": "bloom", "rates_digest": hash(tuple(round(float(x), 15) for x in ps)) & 0xFFFFFFFF}
     for p in ps:
         check_bloom(ctx, P, n, float(p), rng)
+    # requests whose geometry changes when the rate is NOT narrowed to single precision, the rate given as a float, a Decimal or a Fraction
+    for n_e, text in rng.sample(gen.f32_edge_requests(), 4):
+        how, r = gen.spell_rate(rng, text)
+        check_bloom(ctx, P, n_e, float(text), rng, given=None if how == "float" else r)
+        ctx.count("bloom.float32_edge_requests")
+        ctx.count(f"bloom.rate_given_as.{how}")
     if n <= 5000:
         for frac in (0.5, 0.25, 0.999):
             check_bloom_fractional(ctx, P, n + frac, float(rng.choice(ps)))
